@@ -40,8 +40,10 @@ def _collect_implicit_usages(
     for inp in node.inputs:
         if inp is None or inp.graph is subgraph:
             continue
-        # This is a closed variable, add to implicit usages of all graphs that enclose it
-        for g in reversed(graph_stack):
+        # This is a closed variable, add to implicit usages of all graphs that enclose it.
+        # graph_stack[0] is the analyzed graph itself, which is not a sub-graph and has no entry:
+        # a value defined outside of it is captured by every sub-graph on the stack.
+        for g in reversed(graph_stack[1:]):
             if g is inp.graph:
                 break
             implicit_usages[g].add(inp)
